@@ -1,6 +1,6 @@
 (* C07 - decoding consumes exactly one encoding and preserves what follows.  Statements only. *)
 From PV Require Import Base.Bytes Model.Proc Model.Types Model.TableTypes Model.Enc Model.Dec Gen.Tables
-     Proofs.ProcSim Proofs.DecStream Proofs.TagsetShape Proofs.RoundTrip1 Proofs.RoundTrip2.
+     Proofs.ProcSim Proofs.DecStream Proofs.TagsetShape Proofs.RoundTrip1 Proofs.RoundTrip2 Proofs.StreamStage2 Proofs.RoundTrip3b Proofs.RoundTrip3e.
 Local Open Scope nat_scope.
 
 (* Generic: a decoder that never looks at the end of its input returns the same value whatever
@@ -46,3 +46,31 @@ Theorem C07_tail_preserved_stage2 : forall T v b tl,
   exists v', decode BER (Some T) (b ++ tl) = Ok (DV T v', tl) /\ abs T v' = abs T v.
 Proof. exact roundtrip_stage2. Qed.
 Print Assumptions C07_tail_preserved_stage2.
+
+(* Second half of the property, unconditional, for every input: a stream holding any number of stage-2
+   encodings back to back; the streaming decoder yields one object per encoding, the i-th with the
+   abstract value of the i-th value, and the position after it is exactly the end of the i-th
+   encoding - one-shot, and under ANY arrival schedule that ends with end-of-stream *)
+Theorem C07_stage2_stream_of_encodings : forall T vs bs fuel,
+  stage2_ty T = true -> enc_all T vs bs -> bs <> [] ->
+  length bs <= fuel -> (forall b, In b bs -> length b + ty_depth T <= fuel) ->
+  exists ds, Forall2 (same_abs T) vs ds
+    /\ length ds = length bs
+    /\ (forall i, i < length bs -> nth i (ends 0 bs) 0 = length (concat (firstn (S i) bs)))
+    /\ (exists sF, run_complete (streaming BER fuel (Some T)) (concat bs) = inr (Ok (combine ds (ends 0 bs)), sF)
+                   /\ pos sF = length (concat bs))
+    /\ forall sched, wf_sched false sched -> has_close sched = true -> arrivals sched = concat bs ->
+       exists j, drive sched (streaming BER fuel (Some T)) (mkStream [] 0 false 0)
+                 = repeat OUnder j ++ [ODone (Ok (combine ds (ends 0 bs))) (length (concat bs))].
+Proof. exact c07_stage2_stream. Qed.
+Print Assumptions C07_stage2_stream_of_encodings.
+
+(* First half of the property over the whole universe (every type constructor, definite mode): for
+   every valid encoding e written by the BER or DER encoder and ARBITRARY following bytes t, one-shot
+   decoding of e ++ t by any decoder returns the value of e together with t unchanged *)
+Theorem C07_tail_preserved_stage3 : forall ce cd T v b tl,
+  enc_ok ce -> stage3_ty false ce T = true -> stage3_val ce cd T v = true ->
+  encode ce true 0 T v = Ok b -> (N.of_nat (length b) <= index_max)%N ->
+  exists v', decode cd (Some T) (b ++ tl) = Ok (DV T v', tl) /\ abs T v' = abs T v.
+Proof. exact roundtrip_stage3. Qed.
+Print Assumptions C07_tail_preserved_stage3.
